@@ -155,6 +155,9 @@ SPEC = Spec(
         "notification waits in the provider's goroutine (outstanding in the model, exercised for real) and panics there if the "
         "provider is shut down meanwhile — excluded by the provider contract; asyncErrorChannel unbuffered: direct senders and component reports are "
         "pending senders (repaired host: the report's hand-over goroutine; it never holds up the component or the status reporter)",
+        "wall-clock waits of the harnesses are load-tolerant: a deadline (3-5 s) is extended up to 20x while any goroutine of the test "
+        "process can still make progress and expires early only when all of them are blocked (goroutine dump, 3 samples): a slow machine "
+        "is not a hang; extended waits are counted (stat gate_retry)",
         "components and providers themselves terminate: a Start/Shutdown/Retrieve that blocks forever is outside model and harness",
         "interleavings below gate granularity (and two Shutdown() callers between guard read and close on the REAL code) are "
         "monitored (race / stress harness, sampled schedules), not compared exactly; the theorems cover them",
